@@ -256,9 +256,11 @@ def one_system(rec, seedt):
     sname = "numeric"
     if use_analytic and rng.random() < 0.4 and res.get("analytic") is not None:
         base, solver, sname = res["analytic"], systems.MISO_analytic_optimal_spectral_analysis, "analytic"
-    if base is None or q == 1:
+    if base is None or q == 1 or exact:
+        # for an exact combination both residuals are rounding noise (each already asserted to be
+        # <= 1e-6 asd_y above); comparing two noise values with each other asserts nothing
         return
-    tol = 1e-6 if exact else 1e-7
+    tol = 1e-7
     # permutation
     perm = rng.permutation(q)
     rp = run("permuted", lambda: solver([inputs[i] for i in perm], y, fs, **kw))
